@@ -72,12 +72,13 @@ type endpoint struct {
 	infl      []*inflObs
 	defl      [][]byte
 	panics    *int
+	frames    []int // payload sizes handed to the data-frame handler
 	onInflate func() // one-shot: runs when this endpoint has taken an inflater for a message, before it reads from it
 	onDeflate func() // one-shot: runs when this endpoint has taken a deflater for a message, before it writes to it
 }
 
 func (e *endpoint) reset() {
-	e.acts, e.delivered, e.dtypes, e.writes, e.infl, e.defl = nil, nil, nil, nil, nil, nil
+	e.acts, e.delivered, e.dtypes, e.writes, e.infl, e.defl, e.frames = nil, nil, nil, nil, nil, nil, nil
 }
 
 type fakeConn struct {
@@ -164,6 +165,7 @@ type wsCfg struct {
 	compress             bool
 	level                int
 	limit, readLimit, mf int
+	handlers             string // "" or "m": message handler only (what the model describes); "f": data-frame handler only; "mf": both
 }
 
 func newEndpoint(g wsCfg) *endpoint {
@@ -202,11 +204,18 @@ func newEndpoint(g wsCfg) *endpoint {
 		}
 		return cw
 	}
-	u.OnMessage(func(c *websocket.Conn, mt websocket.MessageType, data []byte) {
-		e.acts = append(e.acts, fmt.Sprintf("deliver:%d:%s", mt, short(data)))
-		e.delivered = append(e.delivered, append([]byte{}, data...))
-		e.dtypes = append(e.dtypes, int(mt))
-	})
+	if g.handlers != "f" {
+		u.OnMessage(func(c *websocket.Conn, mt websocket.MessageType, data []byte) {
+			e.acts = append(e.acts, fmt.Sprintf("deliver:%d:%s", mt, short(data)))
+			e.delivered = append(e.delivered, append([]byte{}, data...))
+			e.dtypes = append(e.dtypes, int(mt))
+		})
+	}
+	if g.handlers == "f" || g.handlers == "mf" {
+		u.OnDataFrame(func(c *websocket.Conn, mt websocket.MessageType, fin bool, data []byte) {
+			e.frames = append(e.frames, len(data))
+		})
+	}
 	fc := &fakeConn{e: e}
 	e.fc = fc
 	// inline executor with nbio.Conn.Execute's contract: refuses once the conn is closed
@@ -383,6 +392,7 @@ func exec(e *lp.Exec) {
 	logging.SetLogger(lg)
 	var rc *recvCase
 	var rt *rtCase
+	var hc *hndCase
 	mode := ""
 	finish := func() {
 		had := rc != nil || rt != nil
@@ -446,6 +456,17 @@ func exec(e *lp.Exec) {
 			e.Count("cases", "rt")
 			e.P("> %s", line)
 			e.P("ok")
+		case f[0] == "C" && len(f) > 1 && f[1] == "hnd":
+			finish()
+			mode = "hnd"
+			g := wsCfg{client: field(f, "role") == "client", limit: atoi(field(f, "limit")), mf: 32768, handlers: field(f, "handlers")}
+			hc = &hndCase{g: g, ep: newEndpoint(g)}
+			e.Count("cases", "hnd")
+			e.Count("handlers", g.handlers)
+			e.P("> %s", line)
+			e.P("ok")
+		case f[0] == "F" && mode == "hnd" && len(f) >= 2 && hc != nil:
+			hc.execF(e, lg, f)
 		case f[0] == "C" && len(f) > 1 && f[1] == "mask":
 			finish()
 			mode = "mask"
@@ -933,6 +954,96 @@ func newRT(f []string) *rtCase {
 	}
 	fmt.Fprintf(&r.key, "rt/%v/%d/%v/%s|", comp, g.level, g.limit > 0, r.style)
 	return r
+}
+
+// hndCase: the size limits under the handler configurations the model does not describe (data-frame handler only, both
+// handlers).  Judged by direct oracles on the implementation alone; the result line is a constant.
+//
+//	C hnd handlers=m|f|mf role=server|client limit=L
+//	F <spec>      bytes of one Parse call (the generator writes complete single-frame messages and pings, cut anywhere)
+type hndCase struct {
+	g    wsCfg
+	ep   *endpoint
+	all  []byte
+	dead bool
+	key  strings.Builder
+}
+
+func (h *hndCase) execF(e *lp.Exec, lg *capLogger, f []string) {
+	seg := parseSpec(f[1])
+	e.P("> %s", strings.Join(f, " "))
+	e.P("F -")
+	if h.dead || len(seg) == 0 {
+		return
+	}
+	ep, L := h.ep, h.g.limit
+	ep.reset()
+	ec := errCode(guard(e, strings.Join(f, " "), func() error { return ep.ws.Parse(append([]byte{}, seg...)) }))
+	ep.runJobs()
+	h.all = append(h.all, seg...)
+	if lg.panics > 0 {
+		e.Oracle("c15-limit", "class=panic handlers=%s Parse recovered from a panic", h.g.handlers)
+		lg.panics = 0
+	}
+	cache, ml := ep.ws.VerifCacheLen(), ep.ws.VerifMessageLen()
+	fmt.Fprintf(&h.key, "%d:%d:%d:%v,", ec, len(ep.frames), len(ep.delivered), cache > 0)
+	e.Key("hnd/"+h.g.handlers+"/"+h.key.String(), true)
+	if L > 0 {
+		for _, n := range ep.frames {
+			if n > L {
+				e.Oracle("c15-limit", "class=delivered-over-limit handlers=%s a data frame of %d bytes was handed to the data-frame handler (limit %d)", h.g.handlers, n, L)
+			}
+		}
+		for _, d := range ep.delivered {
+			if len(d) > L {
+				e.Oracle("c15-limit", "class=delivered-over-limit handlers=%s delivered=%d limit=%d", h.g.handlers, len(d), L)
+			}
+		}
+		if ml > L {
+			e.Oracle("c15-limit", "class=buffered-over-limit handlers=%s msglen=%d limit=%d", h.g.handlers, ml, L)
+		}
+		if room := L - ml; ec == 0 && !ep.closed {
+			if room < 125 {
+				room = 125
+			}
+			if cache >= 14+room {
+				e.Oracle("c15-limit", "class=buffered-over-limit handlers=%s unparsed cache=%d with limit=%d and %d bytes assembled (an oversize frame is being buffered)", h.g.handlers, cache, L, ml)
+			}
+		}
+		// the first data frame whose header announces more than the limit (messages are single frames here) is refused
+		// when its header is complete, with the too-large error and a 1009 close frame
+		for _, fr := range refDecode(h.all) {
+			if fr.op <= 2 && fr.declared > uint64(L) {
+				if ec == 0 && !ep.closed {
+					e.Oracle("c15-limit", "class=reject:too-big->ok handlers=%s a data frame announcing %d bytes (limit %d) was not refused", h.g.handlers, fr.declared, L)
+				} else if ec == 4 && !ep.closed && !has1009(ep.writes) { // (a conn already closed by a handler cannot be written to)
+					e.Oracle("c15-limit", "class=no-1009 handlers=%s oversize frame refused but no close frame with code 1009", h.g.handlers)
+				}
+				break
+			}
+		}
+	}
+	// C13 in every handler configuration, one direction only (what a data-frame-only conn leaves unchecked — text validity,
+	// the sum of the fragments against the limit — is not judged here): a sequence the RFC allows is not failed.  Lenient
+	// twin (masking direction: known finding), no message limit in the twin when nothing is assembled.
+	tl := L
+	if h.g.handlers == "f" {
+		tl = 0
+	}
+	if tw := rfcTwin(twinCfg{server: !h.g.client, limit: tl}, refDecode(h.all), false); tw.verdict == "accept" && tw.may == "" && (ec != 0 || ep.closed) {
+		big := false
+		for _, fr := range refDecode(h.all) {
+			if L > 0 && fr.op <= 2 && fr.declared > uint64(L) {
+				big = true
+			}
+		}
+		if !big {
+			e.Oracle("c13-accept", "class=accept->err%d handlers=%s failed a sequence the RFC allows (%d frames so far)", ec, h.g.handlers, len(refDecode(h.all)))
+		}
+	}
+	if ec != 0 || ep.closed {
+		h.dead = true
+	}
 }
 
 func (r *rtCase) cuts(n int) []int {
